@@ -15,6 +15,7 @@ mod retain;
 mod hirdb;
 mod pairing;
 mod parse;
+mod projreg;
 mod rename;
 mod stbc;
 mod stcore;
@@ -41,6 +42,7 @@ fn main() {
         "stcore-gen" => stcore::gen(rest),
         "dbgwrite-run" => dbgwrite::run(rest),
         "emit-run" => emit::run(rest),
+        "projreg-run" => projreg::run(rest),
         "resfault-run" => resfault::run(rest),
         "stfeat" => stfeat::run(rest),
         "stfeat-child" => stfeat::child(rest),
